@@ -316,3 +316,8 @@ PROPS['C18']['monitor_tags'] = set(PROPS['C18']['monitor_tags']) | {1812}
 PROPS['C18']['rule'] = PROPS['C18']['rule'] + (' PLUS the unmodified psa-dhcpd binary started (flag parsing, loadConfig, proto.UnmarshalText, server.New on a real veth interface with the '
     'case\'s hardware address and address, read through netlink) on the text form of the 25 directed and 40 / 1 500 generated configurations in a private network namespace: '
     'comes up ("is ready") or refuses to start, against the specification\'s verdict (tag 1812); skipped where network namespaces are unavailable.')
+
+# the hook script of the real client as real child processes (harness/hook_test.go)
+PROPS['C15']['tests'] = list(PROPS['C15']['tests']) + ['TestC15Hook']
+PROPS['C15']['direct_files'] = list(PROPS['C15']['direct_files']) + ['c15hook']
+PROPS['C19']['tests'] = list(PROPS['C19']['tests']) + ['TestC19Hook']
